@@ -372,7 +372,8 @@ impl Report {
                 truncate(&f.observed.replace('\n', "\\n"), 300)
             );
         }
-        let nviol = unattributed.len();
+        // cases that were not run are reported by the cap above, not counted as violations of their own
+        let nviol: usize = groups.values().map(|g| g.len()).sum();
         if std::env::var_os("VCHECK_DUMP_KNOWN").is_some() {
             // maintenance aid: what each finding covered in this run (to review a rule's breadth)
             let mut txt = String::new();
